@@ -695,6 +695,23 @@ def generate_cons_obj(cons_src):
     out.append("/-- `Constraints::new` -/\ndef newSrc (from_ to_ : J6 R) (w : R) : Constraints R :=\n"
                f"  let ct := centersOf {side(a)} {side(b)};\n"
                f"  {{ from_ := {val[ff]}, to := {val[tt]}, centers := {val[cc]}, tolerances := {val[tl]}, sortingWeight := {val[sw]} }}\n")
+    # ---- from_degrees: limits converted joint by joint, NOTHING else converted, then exactly as `new`
+    body, _ = fn_body(cons_src, "from_degrees")
+    flat = " ".join(re.sub(r"//[^\n]*", "", body).split())
+    arr = lambda which: "[ " + " ".join(f"ranges[{i}].{which}().to_radians()," for i in range(6)) + " ]"
+    m = re.match(r"^let from: Joints = " + re.escape(arr("start")) + r"; let to: Joints = " + re.escape(arr("end")) +
+                 r"; let \(centers, tolerances\) = Self::compute_centers\(([\w.]+), ([\w.]+)\); Constraints \{ (\w+), (\w+), (\w+), (\w+), (\w+),? \}$", flat)
+    if not m:
+        raise TranslateError("Constraints::from_degrees no longer has the shape: from = starts in radians; to = ends in radians; "
+                             "compute_centers(from, to); Constraints { from, to, centers, tolerances, sorting_weight }: " + flat)
+    a, b = m.group(1), m.group(2)
+    if list(m.groups()[2:]) != ["from", "to", "centers", "tolerances", "sorting_weight"]:
+        raise TranslateError("Constraints::from_degrees: fields initialised from other variables: " + str(m.groups()[2:]))
+    out.append("/-- `Constraints::from_degrees` (`lo` / `hi` = the range starts / ends in degrees) -/\n"
+               "def fromDegreesSrc (lo hi : J6 R) (w : R) : Constraints R :=\n"
+               "  let from_ : J6 R := lo.map toRadians;\n  let to_ : J6 R := hi.map toRadians;\n"
+               f"  let ct := centersOf {side(a)} {side(b)};\n"
+               "  { from_ := from_, to := to_, centers := ct.1, tolerances := ct.2, sortingWeight := w }\n")
     # ---- update_range
     body, _ = fn_body(cons_src, "update_range")
     flat = " ".join(re.sub(r"//[^\n]*", "", body).split())
